@@ -186,9 +186,9 @@ func c34RunIdentity(r *vmc.Result, root string, sc c34Scenario, chain []int) (st
 			found = strings.Join(l, "+")
 		}
 	}
-	// valid: the content is a well-formed stored value (a truncated or empty file is
+	// wellFormed: the content is a well-formed stored value (a truncated or empty file is
 	// not "a stored identity"; such leftovers are judged by clauses (a) and (b) only).
-	valid := func(f, content string) bool {
+	wellFormed := func(f, content string) bool {
 		v := strings.TrimSpace(content)
 		if f == "agent_id" {
 			_, err := identity.ParseAgentID(v)
@@ -222,13 +222,13 @@ func c34RunIdentity(r *vmc.Result, root string, sc c34Scenario, chain []int) (st
 				}
 				r.Violate("C34/"+clause+"/"+f+"/start-found:"+suspect[f],
 					fmt.Sprintf("%s: %s was stored (well-formed, visible under its final name) and %s %s: a start that found {%s} silently replaced the stored %s (last crash: died after %s)", tag, f, what, when, suspect[f], f, lastStep), cs)
-				if ok && valid(f, now) {
+				if ok && wellFormed(f, now) {
 					ledger[f] = now // report each replacement once
 				} else {
 					delete(ledger, f)
 				}
 				delete(suspect, f)
-			case !seen && ok && valid(f, now):
+			case !seen && ok && wellFormed(f, now):
 				ledger[f] = now
 			}
 		}
